@@ -214,9 +214,21 @@ def reCost (obj cost : Nat) (o : Op) : Op := if o.obj = obj then { o with cost :
 def reCostB (obj cost : Nat) (l : List Batch) : List Batch := l.map (fun p => (p.1, p.2.map (reCost obj cost)))
 def reCostAcc (obj cost : Nat) (a : Acc) : Acc := { a with openB := reCostB obj cost a.openB }
 
+/-- where the scan loop looks next: v2 follows the buffer's cursor; v1 has no cursor — every iteration asks the
+channel again, so it looks at the head as long as there is one (a value that arrives mid-cycle is still seen) -/
+def curPos (c : BCfg) (s : St) : Option Nat :=
+  match c.gen with
+  | .v2 => s.bm.buf.cur
+  | .v1 => if s.bm.buf.items.isEmpty then none else some 0
+
+/-- remove the record at position `i` (for v2 `i` is the cursor: this is `Buf.remove`) -/
+def removeAt (b : Buf) (i : Nat) : Buf :=
+  let items' := b.items.eraseIdx i
+  { b with items := items', cur := if (items'[i]?).isSome then some i else none }
+
 /-- the scan loop of a cycle is over: the cursor ran off the end of the buffer, or the cut-off holds -/
 def scanDone (c : BCfg) (s : St) (allow : Nat) (acc : Acc) : Bool :=
-  match s.bm.buf.cur with
+  match curPos c s with
   | none => true
   | some i =>
     match s.bm.buf.items[i]? with
@@ -272,20 +284,18 @@ def shutdownV2 (c : BCfg) (s : St) : St :=
 def slotsAfter (c : BCfg) (s : St) (slot : Bool) : Nat := if slot && c.mcb != 0 then s.slots + 1 else s.slots
 
 /-- v2: remove the cursor record, `notFull.Signal()`, reserve the slot, go on scanning -/
-def afterTakeV2 (c : BCfg) (s : St) (allow : Nat) (acc' : Acc) (slot : Bool) : St :=
-  { s with bm := signalOne { s.bm with buf := s.bm.buf.remove.1 }, slots := slotsAfter c s slot, loop := .cycle allow acc' }
+def afterTakeV2 (c : BCfg) (s : St) (i : Nat) (allow : Nat) (acc' : Acc) (slot : Bool) : St :=
+  { s with bm := signalOne { s.bm with buf := removeAt s.bm.buf i }, slots := slotsAfter c s slot, loop := .cycle allow acc' }
 
-/-- v1: receive from the channel (the oldest blocked sender's value moves in); v1 has no cursor: the loop keeps
-receiving while the channel has something -/
-def afterTakeV1 (c : BCfg) (s : St) (allow : Nat) (acc' : Acc) (slot : Bool) : St :=
-  let h := v1Handoff { s with bm := { s.bm with buf := s.bm.buf.remove.1 }, slots := slotsAfter c s slot, loop := .cycle allow acc' }
-  { h with bm := { h.bm with buf := { h.bm.buf with cur := if h.bm.buf.items.isEmpty then none else some 0 } } }
+/-- v1: receive from the channel (the oldest blocked sender's value moves in) -/
+def afterTakeV1 (c : BCfg) (s : St) (i : Nat) (allow : Nat) (acc' : Acc) (slot : Bool) : St :=
+  v1Handoff { s with bm := { s.bm with buf := removeAt s.bm.buf i }, slots := slotsAfter c s slot, loop := .cycle allow acc' }
 
 /-- one loop iteration took the cursor operation -/
-def afterTake (c : BCfg) (s : St) (allow : Nat) (acc' : Acc) (slot : Bool) : St :=
+def afterTake (c : BCfg) (s : St) (i : Nat) (allow : Nat) (acc' : Acc) (slot : Bool) : St :=
   match c.gen with
-  | .v2 => afterTakeV2 c s allow acc' slot
-  | .v1 => afterTakeV1 c s allow acc' slot
+  | .v2 => afterTakeV2 c s i allow acc' slot
+  | .v1 => afterTakeV1 c s i allow acc' slot
 
 def markCbDone (s : St) (b : Nat) : St :=
   { s with batches := s.batches.map (fun x => if x.id == b then { x with cbDone := true } else x) }
@@ -396,7 +406,7 @@ def step (c : BCfg) (s : St) : Label → Option St
   | .cycleStep =>
     match s.loop with
     | .cycle allow acc =>
-      match s.bm.buf.cur with
+      match curPos c s with
       | none => none                       -- end of buffer: only the sweep is left
       | some i =>
         match s.bm.buf.items[i]? with
@@ -405,8 +415,8 @@ def step (c : BCfg) (s : St) : Label → Option St
           match stepOp (cycleCfg c allow) acc (slotFree c s) op with
           | .stop => none                  -- cut-off: only the sweep is left
           | .skip => some { s with bm := { s.bm with buf := s.bm.buf.skip.1 } }
-          | .take acc' none slot => some (afterTake c s allow acc' slot)
-          | .take acc' (some p) slot => some (raise c (afterTake c s allow acc' slot) p)
+          | .take acc' none slot => some (afterTake c s i allow acc' slot)
+          | .take acc' (some p) slot => some (raise c (afterTake c s i allow acc' slot) p)
     | _ => none
   | .scanEnd =>
     match s.loop with
